@@ -354,7 +354,7 @@ def wait(deliver, prior=0):
         sx.reach("wait-timeout")
 
 
-def wait_threads(prior):
+def wait_threads(prior, preempt=0):
     """reception from a second thread while the reader enters / sits in wait_for_reception(): every
     schedule at lock granularity.  A reader that was woken by the frame must get its timestamp; a reader
     that timed out gets None."""
@@ -365,7 +365,7 @@ def wait_threads(prior):
         rig.nb.notify(0x184, sx.fresh_bytes("d0", 8), sx.fresh_int("tsp", 1, 1 << 40))
     ts = sx.fresh_int("ts0", 1, 1 << 40)
     data = sx.fresh_bytes("d", 8)
-    sched = sx.scheduler()
+    sched = sx.scheduler(preempt=preempt)
     calls = []
     cm.add_callback(lambda mp: calls.append(mp))
     sched.spawn(lambda: rig.nb.notify(0x184, data, ts), "receiver")
@@ -470,7 +470,7 @@ def remote_request_after_save():
     sx.reach("rtr-saved")
 
 
-def two_readers():
+def two_readers(preempt=0):
     """two threads wait for the same map while a third delivers one frame (every schedule at lock granularity):
     every reader that was parked in wait_for_reception() when the frame arrived gets its timestamp"""
     rig = Rig()
@@ -478,7 +478,7 @@ def two_readers():
     _configure(cm, "aligned", 0x184)
     ts = sx.fresh_int("ts0", 1, 1 << 40)
     data = sx.fresh_bytes("d", 8)
-    sched = sx.scheduler()
+    sched = sx.scheduler(preempt=preempt)
     res, parked = {}, {}
 
     def reader_b():
